@@ -1057,6 +1057,162 @@ fn cond_case(letters: &str, out: &mut Out, hist: &mut Hist) {
     out.case(&format!("C08.cond\t{}", letters), &obs, &oracle);
 }
 
+/// C08.defscan: definitions (in a header, in the entry file or as API defines) + one `#if` line; the real
+/// `preprocess` is compared with the model of `Macro::parse` + `apply_macros(.., true)` with locations
+/// (`Model/DefinedLoc.lean`).  The request carries the *real lexer's* tokens of every definition and of the
+/// condition with their raw locations.  Scenario spec: `<placement h|m|a>;<def>;<def>;..;<cond>` in hex.
+fn defscan_case(spec_hex: &str, out: &mut Out, hist: &mut Hist) {
+    use rssl::text::tokens::Token;
+    use rssl::text::{Locate, LocateEnd};
+    let Some(spec) = unhex(spec_hex).and_then(|b| String::from_utf8(b).ok()) else { return };
+    let parts: Vec<&str> = spec.split(';').collect();
+    if parts.len() < 2 {
+        return;
+    }
+    let placement = parts[0];
+    let defs: Vec<&str> = parts[1..parts.len() - 1].to_vec();
+    let cond = parts[parts.len() - 1];
+    // ---- the files and where their parts are
+    let mut main = String::new();
+    let mut header = String::new();
+    let mut api: Vec<(String, String)> = Vec::new();
+    // (file index: 0 main, 1.. api defines, last header; byte offset of the fragment; fragment text)
+    let mut def_frags: Vec<(usize, usize, String)> = Vec::new();
+    match placement {
+        "h" => {
+            main.push_str("#include \"h.h\"\n");
+            for d in &defs {
+                header.push_str("#define");
+                def_frags.push((usize::MAX, header.len(), format!(" {}", d)));
+                header.push_str(&format!(" {}\n", d));
+            }
+        }
+        "m" => {
+            for d in &defs {
+                main.push_str("#define");
+                def_frags.push((0, main.len(), format!(" {}", d)));
+                main.push_str(&format!(" {}\n", d));
+            }
+        }
+        _ => {
+            for (k, d) in defs.iter().enumerate() {
+                // NAME(params) VALUE: the API wants name and value apart; split at the first blank outside parentheses
+                let mut depth = 0;
+                let mut cut = d.len();
+                for (i, c) in d.char_indices() {
+                    match c {
+                        '(' => depth += 1,
+                        ')' => depth -= 1,
+                        ' ' if depth == 0 => {
+                            cut = i;
+                            break;
+                        }
+                        _ => {}
+                    }
+                }
+                let (n, v) = (d[..cut].to_string(), d[cut..].trim_start_matches(' ').to_string());
+                def_frags.push((1 + k, 0, format!("{} {}", n, v)));
+                api.push((n, v));
+            }
+        }
+    }
+    main.push_str("#if");
+    let cond_frag = (0usize, main.len(), format!(" {}", cond));
+    main.push_str(&format!(" {}\n#endif\n", cond));
+    // ---- base locations in registration order: entry file, API defines, header
+    let mut bases: Vec<u32> = vec![0];
+    let mut next = main.len() as u32 + 1;
+    for (n, v) in &api {
+        bases.push(next);
+        next += format!("{} {}", n, v).len() as u32 + 1;
+    }
+    let header_base = next;
+    // ---- tokens of the fragments, from the real lexer
+    let mut names: Vec<String> = vec!["defined".to_string()];
+    let mut show = |frag: &(usize, usize, String)| -> Option<String> {
+        let base = if frag.0 == usize::MAX { header_base } else { bases[frag.0] } + frag.1 as u32;
+        let toks = guard(|| rssl_preprocess::verif::lex(&frag.2, rssl::text::SourceLocation::first().offset(base), false)).ok()?.ok()?;
+        let mut v = Vec::new();
+        for t in &toks {
+            let k = match &t.0 {
+                Token::Id(id) => {
+                    let i = match names.iter().position(|n| *n == id.0) {
+                        Some(i) => i,
+                        None => {
+                            names.push(id.0.clone());
+                            names.len() - 1
+                        }
+                    };
+                    format!("i{}", i)
+                }
+                Token::LeftParen => "l".into(),
+                Token::RightParen => "r".into(),
+                Token::Comma => "c".into(),
+                Token::Whitespace | Token::Comment | Token::PhysicalEndline => "b".into(),
+                Token::Endline => "e".into(),
+                Token::HashHash => "h".into(),
+                Token::LiteralInt(v) => format!("n{}", v),
+                _ => "o".into(),
+            };
+            v.push(format!("{}:{}:{}", k, t.get_location().get_raw(), t.get_end_location().get_raw()));
+        }
+        Some(if v.is_empty() { "-".to_string() } else { v.join(" ") })
+    };
+    let mut def_toks = Vec::new();
+    for f in &def_frags {
+        match show(f) {
+            Some(t) => def_toks.push(t),
+            None => return, // not lexable: outside this stream
+        }
+    }
+    let Some(cond_toks) = show(&cond_frag) else { return };
+    // ---- the real preprocessor
+    let api_refs: Vec<(&str, &str)> = api.iter().map(|(a, b)| (a.as_str(), b.as_str())).collect();
+    let r = guard(|| {
+        let mut sm = rssl::text::SourceManager::new();
+        let mut inc = MemFiles(vec![("main.rssl".to_string(), main.clone()), ("h.h".to_string(), header.clone())]);
+        match rssl::preprocess::preprocess("main.rssl", &mut sm, &mut inc, &api_refs) {
+            Ok(_) => "done".to_string(),
+            Err(e) => {
+                use rssl::text::CompileErrorExt;
+                let msg = format!("{}", e.display(&sm));
+                let first = msg.lines().next().unwrap_or("").to_string();
+                if first.contains("#if condition parser failed") {
+                    "done".to_string()
+                } else if first.contains("requires arguments") {
+                    "err:requires-arguments".to_string()
+                } else if first.contains("expected end of macro arguments") {
+                    "err:arguments-never-end".to_string()
+                } else if first.contains("different number of arguments") {
+                    "err:different-number".to_string()
+                } else if first.contains("no token on left of ##") {
+                    "err:concat-left".to_string()
+                } else if first.contains("no token on right of ##") {
+                    "err:concat-right".to_string()
+                } else if first.contains("invalid #define command") {
+                    "err:invalid-define".to_string()
+                } else {
+                    format!("other:{}", first.chars().take(80).collect::<String>())
+                }
+            }
+        }
+    });
+    let (obs, oracle) = match r {
+        Ok(o) => (o, "ok".to_string()),
+        Err(p) => {
+            let msg = p.splitn(3, ':').nth(2).unwrap_or(&p).trim().to_string();
+            (format!("panic:{}", msg), format!("FAIL:panic {}", p))
+        }
+    };
+    hist.add(&format!("defscan={}", obs.split(|c| c == ':' || c == ' ').take(2).collect::<Vec<_>>().join(":")));
+    hist.add(&format!("defscan-placement={}", placement));
+    let req = format!("C08.defscan\t{}\t{}", if def_toks.is_empty() { "-".to_string() } else { def_toks.join("|") }, cond_toks);
+    // the spec rides along as a comment field of the observation? no: requests must be replayable, so it is the
+    // *tokens* that are the request; replay re-runs the model only.  The scenario text is kept in the oracle detail.
+    let oracle = if oracle == "ok" { oracle } else { format!("{} scenario={}", oracle, spec_hex) };
+    out.case(&format!("{}\t{}", req, spec_hex), &obs, &oracle);
+}
+
 // ------------------------------------------------------------------------------------------ driver
 
 fn emit(out: &mut Out, line: &str, r: &Res) {
@@ -1103,6 +1259,10 @@ pub fn run(args: &Args, out: &mut Out) {
                 }
             } else if let Some(rest) = line.strip_prefix("C08.cond\t") {
                 cond_case(rest, out, &mut hist);
+            } else if let Some(rest) = line.strip_prefix("C08.defscan\t") {
+                if let Some(spec) = rest.split('\t').nth(2) {
+                    defscan_case(spec, out, &mut hist);
+                }
             }
         }
         out.stat(&format!("{{\"mode\":\"replay\",\"hist\":{}}}", hist.json()));
@@ -1152,6 +1312,11 @@ pub fn run(args: &Args, out: &mut Out) {
     }
     for letters in cond_sequences(&mut rng, if args.thorough() { 7 } else { 5 }, 300 * scale.min(10) as usize) {
         cond_case(&letters, out, &mut hist);
+    }
+
+    for _ in 0..(900 * scale.min(10)) {
+        let spec = gen_defscan(&mut rng);
+        defscan_case(&hex(spec.as_bytes()), out, &mut hist);
     }
 
     // ---- the property's own oracle: compile under supervision
